@@ -124,7 +124,7 @@ func atomsHave(atoms map[string]bool, pat string) bool {
 func (t *Term) Has(pats ...string) bool {
 	at := t.Atoms()
 	for _, p := range pats {
-		if strings.Contains(p, "|") && !strings.HasPrefix(p, "^") && !strings.HasPrefix(p, "!") { // alternatives
+		if strings.Contains(p, "|") && !strings.HasPrefix(p, "!") { // alternatives (each may carry its own ^ anchor)
 			ok := false
 			for _, alt := range strings.Split(p, "|") {
 				if t.Has(alt) {
@@ -256,7 +256,7 @@ func fieldName(structT types.Type, idx int) string {
 	}
 	tn := typeName(t)
 	if st, ok := t.Underlying().(*types.Struct); ok && idx < st.NumFields() {
-		return tn + "." + st.Field(idx).Name()
+		return tn + "." + fieldVarName(st.Field(idx))
 	}
 	return tn + ".?"
 }
